@@ -39,6 +39,13 @@ def run(prog, rep, tier):
     check_export_map_lifetime(prog, r6)
     from . import c06 as _c06
     _c06.check_ids(prog, r6)
+    # a neighbour is told about a change only if the change says the best path moved: the table-side rules that decide that flag
+    # are necessary conditions of this property as well (shared with R06.5 / R06.7)
+    r7 = rep.rule("R01.7", "a change of the best path is reported as one: best-path reads use the full eligibility predicate before and after a mutation (shared with R06.5), and a change is emitted whenever the visible set moved (R06.7)")
+    _c06.check_best_predicate(prog, r7)
+    _c06.check_emission_guard(prog, r7)
+    r8 = rep.rule("R01.8", "once the best path changed, the non-add-path arm either announces it or consults what was sent (and withdraws): no other way out")
+    check_plain_arm_exits(prog, r8)
 
 
 def check_register(prog, r):
@@ -402,3 +409,36 @@ def check_export_map_lifetime(prog, r):
         r.ok("on_established: the ExportMap is created before the initial dump and not replaced afterwards")
     else:
         r.ok("on_established: the ExportMap is not replaced around the initial dump")
+
+
+def check_plain_arm_exits(prog, r):
+    """Non-add-path arm of process_nlri_change: `if !best_changed { return }` is the one legitimate early exit.  Whatever makes the
+    new best not exportable to this neighbour (its own route, split horizon, policy, no best at all) must fall through to the
+    `was_sent` consultation, so that a route announced earlier is withdrawn; an extra `return` on one of those conditions leaves
+    the neighbour with the stale route for ever."""
+    from ..cfg import bool_edges
+    k = prog.one(r"rustybgpd::event::export::process_nlri_change")
+    fv = view(prog, k)
+    r.analysed(prog.name(k))
+    brs = branches(fv)
+    bc = [br for bi, br in brs.items() if "best_changed" in expr_fields(br.expr) and _arm(fv, bi) == "plain"]
+    if len(bc) != 1:
+        r.unanalysable("process_nlri_change: %d tests of best_changed in the non-add-path arm" % len(bc), fv.loc())
+        return
+    br = bc[0]
+    neg = br.expr[0] == "un" and br.expr[1] == "Not"
+    early = bool_edges(fv, br, True if neg else False)       # the edge taken when best_changed is false
+    consult = [b for b, t in fv.calls(re.compile(r"rustybgpd::event::export::ExportMap::(was_sent|sent_path_ids)$")) if _arm(fv, b) == "plain"]
+    emits = [b for b, t in fv.calls(re.compile(r".*NlriSink::(reach|unreach)$")) if _arm(fv, b) == "plain"]
+    if not consult or not emits:
+        r.unanalysable("process_nlri_change: non-add-path arm has %d was_sent consultations / %d sink emissions" % (len(consult), len(emits)), fv.loc(br.bi))
+        return
+    rets = [b for b in fv.returns()]
+    if fv.must_pass(br.bi, consult + emits, rets, after=True, removed_edges=early):
+        r.ok("process_nlri_change: after `best_changed`, every way out of the non-add-path arm passes a sink emission or the was_sent consultation")
+    else:
+        # name the exit: a return block reachable without passing them
+        reach = fv.reach_after(br.bi, set(consult + emits), early)
+        bad = sorted(b for b in rets if b in reach)
+        r.fail(prog.name(k), "plain-arm-exit-without-withdraw", "the non-add-path arm can return after the best path changed without announcing it and without consulting was_sent(): "
+               "when the new best is not exportable to this neighbour on that path, a route announced earlier is never withdrawn", fv.loc(bad[0] if bad else br.bi))
